@@ -58,6 +58,8 @@ def unit_rewrite(pc, goal, rounds=5):
         units = {}
         for c in pc:
             if z3.is_quantifier(c):
+                # a quantified conjunct occurring verbatim elsewhere (an invariant restated in a goal)
+                units[c.get_id()] = (c, z3.BoolVal(True), c.get_id())
                 continue
             a, v = (c.arg(0), False) if z3.is_not(c) else (c, True)
             if not _is_literal_atom(a):
@@ -126,7 +128,17 @@ def smt2_of(pc, goal):
 def for_cvc5(text):
     t = re.sub(r'\(\(_ ([^\s()]+) 0\)', r'(\1', text)
     t = t.replace('(set-info :status unknown)', '')
-    return '(set-logic ALL)\n' + t
+    head = '(set-logic ALL)\n'
+    if 'last_indexof' in t:
+        # cvc5 1.0 has no last-index-of: it is given as an uninterpreted function there, which only
+        # weakens the query (an `unsat` stays valid; a `sat` of the weakened query is not used)
+        t = t.replace('seq.last_indexof', 'pyvc_last_indexof').replace('str.last_indexof', 'pyvc_last_indexof')
+        head += '(declare-fun pyvc_last_indexof (String String) Int)\n'
+    return head + t
+
+
+def weakened_for_cvc5(text):
+    return 'last_indexof' in text
 
 
 def available():
@@ -198,6 +210,8 @@ def race(text, timeout_s, confirm=False, tmpdir=None):
                 first = out.split('\n')[0].strip() if out else ''
                 if 'invalid model' in out:
                     first = 'unknown'     # z3 produced a model that fails its own validation
+                if first == 'sat' and name.startswith('cvc5') and weakened_for_cvc5(text):
+                    first = 'unknown'
                 answers[name] = (first if first in ('sat', 'unsat') else 'unknown', time.time() - t0, out[:300])
                 del pending[name]
             definitive = [(n, a) for n, a in answers.items() if a[0] in ('sat', 'unsat')]
